@@ -67,7 +67,7 @@ fn h(tag: &str, seed: u64, set: u32, i: u32, j: u32) -> [u8; 32] {
 
 #[allow(unused_macros)]
 macro_rules! probe {
-    ($m:ident, $set:expr, $seed:expr, $cases:expr, $eta:expr, $K:expr, $L:expr) => {{
+    ($m:ident, $set:expr, $seed:expr, $cases:expr, $eta:expr, $K:expr, $L:expr, $omega:expr) => {{
         use fips204::traits::{KeyGen, SerDes, Signer, Verifier};
         use fips204::Ph;
         let mut outer = Sha256::new();
@@ -108,6 +108,11 @@ macro_rules! probe {
                 m2.push(0);
                 let v3 = ver(&m2, &sig);
                 d.update([u8::from(v1), u8::from(v2), u8::from(v3)]);
+                // malformed hint encodings of the genuine signature (repeated index, descending pair, non-zero slack,
+                // count raised over a slack byte): every one must be rejected, in every configuration
+                for k in 0..4u8 {
+                    d.update([u8::from(ver(m, &hint_mutant(&sig, $omega, $K, k)))]);
+                }
             }
             let di: [u8; 32] = d.finalize().into();
             outer.update(di);
@@ -115,7 +120,7 @@ macro_rules! probe {
         let out: [u8; 32] = outer.finalize().into();
         println!("set={} digest={}", $set, hex(&out));
         // ---- behaviour digest: API behaviours beyond the KATs (must not depend on the configuration) ----
-        {
+        if !kat_only() {
             let mut b = Sha256::new();
             let bits: usize = if $eta == 2 { 3 } else { 4 };
             let nfields: usize = ($K + $L) * 256;
@@ -179,7 +184,7 @@ macro_rules! probe {
             println!("set={} behave={}", $set, hex(&outb));
         }
         // ---- rare-event digest: corpus seeds / signature tuples (offline SHAKE searches), same stream as `vcheck featref` ----
-        {
+        if !kat_only() {
             let mut r = Sha256::new();
             for line in rare_lines() {
                 let f: Vec<&str> = line.split_whitespace().collect();
@@ -211,12 +216,41 @@ macro_rules! probe {
             println!("set={} dudect={}", $set, hex(&dd));
         }
         #[cfg(feature = "default-rng")]
-        {
+        if !kat_only() {
             let (pk, sk) = fips204::$m::try_keygen().expect("try_keygen");
             let s = sk.try_sign(b"os rng", &[1]).expect("try_sign");
             println!("set={} osrng={}", $set, pk.verify(b"os rng", &s, &[1]));
         }
     }};
+}
+
+/// fourth argument `kat-only`: only the KAT digest (used by the big-endian probe, which runs under an interpreter)
+#[allow(dead_code)]
+fn kat_only() -> bool { std::env::args().nth(4).as_deref() == Some("kat-only") }
+
+/// the `k`-th malformation of the hint section of `sig` (unchanged if the signature has too few hints for it)
+#[allow(dead_code)]
+fn hint_mutant<const N: usize>(sig: &[u8; N], omega: usize, kk: usize, k: u8) -> [u8; N] {
+    let mut s = *sig;
+    let h = N - (omega + kk);
+    let total = s[h + omega + kk - 1] as usize;
+    // first polynomial with at least two hints: [start, end)
+    let (mut start, mut found) = (0usize, None);
+    for i in 0..kk {
+        let end = s[h + omega + i] as usize;
+        if end >= start + 2 && found.is_none() {
+            found = Some(start);
+        }
+        start = end;
+    }
+    match (k, found) {
+        (0, Some(a)) => s[h + a + 1] = s[h + a],
+        (1, Some(a)) => s.swap(h + a, h + a + 1),
+        (2, _) if total < omega => s[h + total] = 1,
+        (3, _) if total < omega => s[h + omega + kk - 1] += 1,
+        _ => {}
+    }
+    s
 }
 
 fn unhex(s: &str) -> Vec<u8> { (0..s.len() / 2).map(|i| u8::from_str_radix(&s[2 * i..2 * i + 2], 16).expect("hex")).collect() }
@@ -238,9 +272,9 @@ fn main() {
     let cases: u32 = args.get(2).and_then(|s| s.parse().ok()).unwrap_or(8);
     let _ = (seed, cases);
     #[cfg(feature = "ml-dsa-44")]
-    probe!(ml_dsa_44, 44u32, seed, cases, 2, 4, 4);
+    probe!(ml_dsa_44, 44u32, seed, cases, 2, 4, 4, 80);
     #[cfg(feature = "ml-dsa-65")]
-    probe!(ml_dsa_65, 65u32, seed, cases, 4, 6, 5);
+    probe!(ml_dsa_65, 65u32, seed, cases, 4, 6, 5, 55);
     #[cfg(feature = "ml-dsa-87")]
-    probe!(ml_dsa_87, 87u32, seed, cases, 2, 8, 7);
+    probe!(ml_dsa_87, 87u32, seed, cases, 2, 8, 7, 75);
 }
